@@ -162,6 +162,12 @@ def run_path(contract, world, prefix, compare_spec=True, forker=None):
     status = 'ok'
     try:
         try:
+            if getattr(contract, 'lemma', None) is not None:
+                try:
+                    contract.lemma(interp)
+                except PyRaise as e:
+                    ex.prove('no exception in the lemma (raised %s)' % e.exc, False)
+                return ex, status
             args, kwargs = contract.params(ex)
             ex.verifying = q
             node, _ = frontend.find(q)
@@ -244,16 +250,21 @@ def _plain(meta):
 _WORKER = {}
 
 
+def real_name(contract):
+    return contract.qualname
+
+
 def _worker_task(qualname, prefix):
     c = _WORKER['contracts'][qualname]
     return _explore_one(c, _WORKER['world'], prefix)
 
 
 def verify_contract(contract, world, path_limit=4000, pool=None):
-    rep = FunctionReport(contract.qualname)
+    rep = FunctionReport(getattr(contract, 'label', None) or contract.qualname)
     t0 = time.time()
     try:
-        rep.source_hash = frontend.source_hash(contract.qualname)
+        if getattr(contract, 'lemma', None) is None:
+            rep.source_hash = frontend.source_hash(contract.qualname)
     except KeyError:
         rep.undecided.append('function %s not found in /repo (renamed or removed)' % contract.qualname)
         return rep, []
@@ -275,7 +286,7 @@ def verify_contract(contract, world, path_limit=4000, pool=None):
                 key = (name, 'trivial')
                 if key not in seen:
                     seen.add(key)
-                    ob = Obligation(contract.qualname, name, '', meta, trivial=True)
+                    ob = Obligation(rep.qualname, name, '', meta, trivial=True)
                     ob.verdict = 'unsat'
                     rep.obligations.append(ob)
                 continue
@@ -283,7 +294,7 @@ def verify_contract(contract, world, path_limit=4000, pool=None):
             if key in seen:
                 continue
             seen.add(key)
-            ob = Obligation(contract.qualname, name, text, meta)
+            ob = Obligation(rep.qualname, name, text, meta)
             rep.obligations.append(ob)
             goals.append(ob)
         return pending
@@ -349,7 +360,7 @@ def verify_all(contracts, names=None, timeout=10, both=False, path_limit=4000, v
     for q, c in contracts.items():
         if names is not None and q not in names:
             continue
-        if c.params is None:
+        if c.params is None and getattr(c, 'lemma', None) is None:
             continue     # call-site-only contract (assumed): listed by the caller as an assumption
         rep, goals = verify_contract(c, world, path_limit=path_limit, pool=pool)
         reports.append(rep)
